@@ -8,7 +8,6 @@ from sqllineage.core.parser.sqlfluff.utils import (
     list_child_segments,
 )
 from sqllineage.utils.entities import AnalyzerContext
-from sqllineage.utils.helpers import escape_identifier_name
 
 
 class CopyExtractor(BaseExtractor):
@@ -49,7 +48,7 @@ class CopyExtractor(BaseExtractor):
                 tgt_flag = False
             if src_flag:
                 if segment.type in ["literal", "storage_location"]:
-                    path = Path(escape_identifier_name(segment.raw))
+                    path = Path(segment.raw)
                     holder.add_read(path)
                 src_flag = False
 
